@@ -184,6 +184,15 @@ class Drive:
         self.stats[name] = st
         return st
 
+    def repotests(self, name="repotests"):
+        """the repository's own scenario tests, every game wrapped by harness/vrec (DESIGN 3.5)"""
+        out = self._p(name + ".ndjson")
+        st = vlib.repo_tests_trace(self.work, self.bin, out)
+        if st.get("lines"):
+            self.files[out] = dict(kind="repotests")
+        self.stats[name] = st
+        return st
+
     def generic(self, name, sub, args):
         out, scr = self._p(name + ".ndjson"), self._p(name + ".scripts")
         st = vlib.drive(self.bin, [sub, "-o", out, "-scripts", scr] + list(args))
@@ -213,7 +222,15 @@ def reproduce(prop, work, binary, v, info, line, resetline_obj):
     """replay the offending run from scratch and re-validate: a verdict only if it fails again (R1)"""
     d = work.sub("repro")
     desc = dict(property=prop, clause=v["clause"], kind=info["kind"], failing_line=line)
-    if info["kind"] == "script":
+    if info["kind"] == "repotests":
+        # the scenario test the failing call belongs to is run again, alone
+        out = os.path.join(d, "replay.ndjson")
+        st = vlib.repo_tests_trace(work, binary, out, only=line.get("test") or "Test.*")
+        if not st.get("lines"):
+            return False, None
+        desc["kind"] = "repotests"
+        desc["test"] = line.get("test")
+    elif info["kind"] == "script":
         s = find_script(info["scripts"], line["run"])
         if s is None:
             return False, None
@@ -242,7 +259,10 @@ def reproduce(prop, work, binary, v, info, line, resetline_obj):
 def run_replay_file(prop, work, binary, path):
     desc = json.load(open(path))
     d = work.sub("replay")
-    if desc.get("kind") == "script":
+    if desc.get("kind") == "repotests":
+        out = [os.path.join(d, "replay.ndjson")]
+        vlib.repo_tests_trace(work, binary, out[0], only=desc.get("test") or "Test.*")
+    elif desc.get("kind") == "script":
         sp = os.path.join(d, "script.ndjson")
         open(sp, "w").write(json.dumps(desc["script"]) + "\n")
         out = [os.path.join(d, "replay.ndjson")]
@@ -293,6 +313,7 @@ def engine_check(prop, tier, seed, work, replay):
     dr.replay("sim", simfile, finish=True, seed=seed)
     for s in range(T["seeds"]):
         dr.random("random%d" % s, T["random_runs"], seed * 1000 + s, ["-rehydrate", "9"], runbase=s * 100000)
+    dr.repotests()
     if prop in ("C04", "C12", "C06"):
         dr.random("probe", T["probe_runs"], seed * 1000 + 77, ["-probe"], runbase=1000000)
     if prop in ("C11", "C12", "C05", "C01"):
